@@ -1,4 +1,6 @@
 //! Workloads: what the producer threads, the optional controller thread and the consumer do.
+//! Ids 0.. are the 16 drain-to-end-of-stream families, ids TEARDOWN_BASE.. the 16 teardown
+//! families (consumer abandons / stops / stalls, last handle dropped over a non-empty ring).
 //! A workload is a pure function of (VERIF_SEED, scenario id); it is written out in full in
 //! every replay file so a replay does not depend on this generator staying unchanged.
 use serde_json::{json, Value};
@@ -56,6 +58,49 @@ pub enum SourceMode {
     Cloned,
 }
 
+/// What the consumer thread does with its track handle.
+#[derive(Clone, Copy, Debug, PartialEq, Eq)]
+pub enum Consumer {
+    /// loop on recv() until EndOfStream (the only behaviour of the first 16 families; the creating
+    /// thread keeps its own track handle until the run has been judged)
+    Drain,
+    /// receive at most k samples (k = 0: never call recv), then drop the track handle and return
+    AbandonAfter(u32),
+    /// receive at most k samples, call stop() on the track, then drop the handle and return
+    StopThenAbandon(u32),
+    /// receive at most k samples, wait (yielding to the scheduler) until every producer thread has
+    /// finished and dropped its source handle, then drain to EndOfStream
+    StallThenDrain(u32),
+}
+
+impl Consumer {
+    pub fn label(&self) -> &'static str {
+        match self {
+            Consumer::Drain => "drain",
+            Consumer::AbandonAfter(_) => "abandon",
+            Consumer::StopThenAbandon(_) => "stop_then_abandon",
+            Consumer::StallThenDrain(_) => "stall",
+        }
+    }
+    fn to_json(&self) -> Value {
+        match self {
+            Consumer::Drain => json!("drain"),
+            Consumer::AbandonAfter(k) => json!({ "abandon_after": k }),
+            Consumer::StopThenAbandon(k) => json!({ "stop_then_abandon": k }),
+            Consumer::StallThenDrain(k) => json!({ "stall_then_drain": k }),
+        }
+    }
+    /// a replay file written before this field existed has no `consumer`: drain to end-of-stream
+    fn from_json(v: Option<&Value>) -> Option<Consumer> {
+        let Some(v) = v else { return Some(Consumer::Drain) };
+        if v.is_null() || v.as_str() == Some("drain") {
+            return Some(Consumer::Drain);
+        }
+        let k = |name: &str| v.get(name).and_then(|k| k.as_u64()).map(|k| k as u32);
+        k("abandon_after").map(Consumer::AbandonAfter).or_else(|| k("stop_then_abandon").map(Consumer::StopThenAbandon)).or_else(|| k("stall_then_drain").map(Consumer::StallThenDrain))
+    }
+}
+
 #[derive(Clone, Debug)]
 pub struct Workload {
     pub id: u32,
@@ -66,6 +111,7 @@ pub struct Workload {
     pub producers: Vec<Vec<Op>>,
     /// optional extra thread that owns no source (only `Stop` is meaningful here)
     pub controller: Vec<Op>,
+    pub consumer: Consumer,
 }
 
 impl Workload {
@@ -76,7 +122,7 @@ impl Workload {
         self.producers.iter().filter(|p| p.iter().any(|o| o.pushes() > 0)).count()
     }
     pub fn has_stop(&self) -> bool {
-        self.controller.iter().chain(self.producers.iter().flatten()).any(|o| *o == Op::Stop)
+        matches!(self.consumer, Consumer::StopThenAbandon(_)) || self.controller.iter().chain(self.producers.iter().flatten()).any(|o| *o == Op::Stop)
     }
     /// Structural class used by known-findings patterns: how many threads push into the one ring.
     pub fn scenario_class(&self) -> &'static str {
@@ -98,6 +144,7 @@ impl Workload {
             "source_mode": match self.mode { SourceMode::SharedArc => "shared_arc", SourceMode::Cloned => "cloned" },
             "producers": self.producers.iter().map(|p| p.iter().map(|o| o.to_json()).collect::<Vec<_>>()).collect::<Vec<_>>(),
             "controller": self.controller.iter().map(|o| o.to_json()).collect::<Vec<_>>(),
+            "consumer": self.consumer.to_json(),
             "scenario_class": self.scenario_class(),
             "total_pushes": self.total_pushes(),
         })
@@ -115,6 +162,7 @@ impl Workload {
             },
             producers: v.get("producers")?.as_array()?.iter().map(ops).collect::<Option<Vec<_>>>()?,
             controller: ops(v.get("controller")?)?,
+            consumer: Consumer::from_json(v.get("consumer"))?,
         })
     }
 }
@@ -163,6 +211,9 @@ fn push_ops(r: &mut Rng, n_ops: usize, kinds: &[u8]) -> Vec<Op> {
 /// samples, stop() from a producer or from a bystander thread, shared and cloned handles,
 /// 1 to 4 producers.
 pub fn generate(seed: u64, id: u32) -> Workload {
+    if id >= TEARDOWN_BASE {
+        return generate_teardown(seed, id);
+    }
     let mut r = Rng(mix(seed, 0xC20, id as u64));
     let fam = id as usize % FAMILIES;
     let any = [0u8, 1, 2];
@@ -234,5 +285,177 @@ pub fn generate(seed: u64, id: u32) -> Workload {
             controller.push(Op::Stop);
         }
     }
-    Workload { id, family, capacity, mode, producers, controller }
+    Workload { id, family, capacity, mode, producers, controller, consumer: Consumer::Drain }
+}
+
+/// Scenario ids from here on belong to the teardown families (ids below keep the meaning they
+/// always had: `id % 16` selects one of the 16 drain-to-end-of-stream families above).
+pub const TEARDOWN_BASE: u32 = 100_000;
+pub const TEARDOWN_FAMILIES: u32 = 16;
+
+/// (seed, id >= TEARDOWN_BASE) -> workload whose consumer does NOT simply drain: it abandons the
+/// track after k receives (k = 0: without ever calling recv), stops and abandons it, or stalls
+/// until the producers are done and drains then. The creating thread lets go of its source AND
+/// its track handle at once, so the last handle - source or track, whichever the schedule makes
+/// last - is dropped with whatever is still queued, and `SpscRing::drop` has to release it.
+/// With k = 0 the fill level at teardown is fixed by the workload alone: the families guarantee,
+/// whatever the seed, capacity 1 / 2 / 4 exactly full, partly filled and empty, one and several
+/// producers, try_send (refused pushes, ring left full) and send (drop-oldest keeps the ring
+/// exactly full), stop() before the handles go. In families that say `cap3` the capacity is
+/// [1, 2, 4][(id - TEARDOWN_BASE) / 16 % 3], so three consecutive rounds cover all three.
+pub fn generate_teardown(seed: u64, id: u32) -> Workload {
+    let mut r = Rng(mix(seed, 0xC20_7D, id as u64));
+    let k = id - TEARDOWN_BASE;
+    let (fam, round) = (k % TEARDOWN_FAMILIES, (k / TEARDOWN_FAMILIES) as usize);
+    let cap3 = [1usize, 2, 4][round % 3];
+    let alt_mode = if round % 2 == 0 { SourceMode::Cloned } else { SourceMode::SharedArc };
+    let mixed = [0u8, 1, 2, 0, 1, 2, 3];
+    let mut controller = vec![];
+    let (family, capacity, mode, producers, consumer): (&'static str, usize, SourceMode, Vec<Vec<Op>>, Consumer) = match fam {
+        0 => {
+            // one slot, at least one send, nobody receives: exactly full
+            let mut ops = vec![Op::Send];
+            let n = r.below(3) as usize;
+            ops.extend(push_ops(&mut r, n, &[0, 0, 2]));
+            ("td_abandon_cap1_full", 1, SourceMode::Cloned, vec![ops], Consumer::AbandonAfter(0))
+        }
+        1 => {
+            let mut ops = vec![Op::Send, Op::Send];
+            let n = r.below(3) as usize;
+            ops.extend(push_ops(&mut r, n, &[0, 2]));
+            ("td_abandon_cap2_full", 2, SourceMode::SharedArc, vec![ops], Consumer::AbandonAfter(0))
+        }
+        2 => {
+            let mut ops = vec![Op::SendMany(3), Op::Send];
+            let n = r.below(3) as usize;
+            ops.extend(push_ops(&mut r, n, &[0, 1, 2]));
+            ("td_abandon_cap4_full", 4, alt_mode, vec![ops], Consumer::AbandonAfter(0))
+        }
+        3 => {
+            // try_send only: fills the ring, the rest is refused, the ring stays full
+            let n = cap3 + 1 + r.below(2) as usize;
+            ("td_abandon_try_send_full", cap3, alt_mode, vec![vec![Op::TrySend; n]], Consumer::AbandonAfter(0))
+        }
+        4 => {
+            // fewer pushes than slots: partly filled at teardown, exactly `n` queued
+            let cap = [2usize, 4, 4][round % 3];
+            let n = 1 + r.below(cap as u64 - 1) as usize;
+            let ops = (0..n).map(|_| r.pick(&[Op::Send, Op::TrySend])).collect();
+            ("td_abandon_partly_filled", cap, alt_mode, vec![ops], Consumer::AbandonAfter(0))
+        }
+        5 => {
+            // nothing is ever queued; k = 1 lets the consumer meet end-of-stream instead
+            let np = 1 + round % 2;
+            let producers = (0..np)
+                .map(|_| match r.below(3) {
+                    0 => vec![],
+                    1 => vec![Op::SendMany(0)],
+                    _ => vec![Op::CloneDrop],
+                })
+                .collect();
+            ("td_abandon_empty", cap3, alt_mode, producers, Consumer::AbandonAfter(r.below(2) as u32))
+        }
+        6 => {
+            // the consumer takes one or two samples while the producer overflows the ring: any
+            // fill level 0..=capacity at teardown, head and tail anywhere (wrapped ring)
+            let mut ops = vec![Op::Send; cap3 + 1];
+            let n = r.below(3) as usize;
+            ops.extend(push_ops(&mut r, n, &[0, 0, 1, 2]));
+            ("td_abandon_after_k", cap3, alt_mode, vec![ops], Consumer::AbandonAfter(1 + r.below(2) as u32))
+        }
+        7 => {
+            // two producers, each sends at least `capacity` samples: exactly full
+            let producers = (0..2).map(|_| vec![Op::Send; cap3 + r.below(2) as usize]).collect();
+            ("td_abandon_2p_full", cap3, alt_mode, producers, Consumer::AbandonAfter(0))
+        }
+        8 => {
+            let producers = (0..3)
+                .map(|_| {
+                    let n = r.below(4) as usize;
+                    push_ops(&mut r, n, &mixed)
+                })
+                .collect();
+            ("td_abandon_3p_mixed", cap3, alt_mode, producers, Consumer::AbandonAfter(r.below(3) as u32))
+        }
+        9 => {
+            // the consumer itself stops the track, then lets go of it
+            let np = 1 + round % 2;
+            let producers = (0..np)
+                .map(|_| {
+                    let n = 1 + r.below(4) as usize;
+                    push_ops(&mut r, n, &[0, 0, 1, 2])
+                })
+                .collect();
+            ("td_stop_then_abandon", cap3, alt_mode, producers, Consumer::StopThenAbandon(r.below(2) as u32))
+        }
+        10 | 14 => {
+            // stop() comes from a producer or from a bystander thread, racing with everything else
+            let np = 1 + r.below(2) as usize;
+            let mut producers: Vec<Vec<Op>> = (0..np)
+                .map(|_| {
+                    let n = 1 + r.below(4) as usize;
+                    push_ops(&mut r, n, &[0, 0, 1, 2])
+                })
+                .collect();
+            if r.below(2) == 0 {
+                let p = r.below(np as u64) as usize;
+                let at = r.below(producers[p].len() as u64 + 1) as usize;
+                producers[p].insert(at, Op::Stop);
+            } else {
+                controller.push(Op::Stop);
+            }
+            if fam == 10 {
+                ("td_abandon_stop_elsewhere", cap3, alt_mode, producers, Consumer::AbandonAfter(r.below(2) as u32))
+            } else {
+                // the stalled consumer finds the track ended and leaves what is queued to the teardown
+                ("td_stall_with_stop", cap3, alt_mode, producers, Consumer::StallThenDrain(r.below(2) as u32))
+            }
+        }
+        11 => {
+            // drop-oldest keeps the one slot full while the consumer stalls; the queue releases the victims
+            let mut ops = vec![Op::Send, Op::Send];
+            let n = r.below(3) as usize;
+            ops.extend(push_ops(&mut r, n, &[0, 0, 2]));
+            ("td_stall_cap1_overflow", 1, SourceMode::Cloned, vec![ops], Consumer::StallThenDrain(r.below(2) as u32))
+        }
+        12 => {
+            let cap = [2usize, 4][round % 2];
+            let mut ops = vec![Op::Send; cap + 1];
+            let n = r.below(4) as usize;
+            let at = r.below(cap as u64 + 1) as usize;
+            for (k, o) in push_ops(&mut r, n, &[0, 0, 1, 2]).into_iter().enumerate() {
+                ops.insert((at + k).min(ops.len()), o);
+            }
+            ("td_stall_cap2_or_4", cap, alt_mode, vec![ops], Consumer::StallThenDrain(r.below(3) as u32))
+        }
+        13 => {
+            let producers = (0..2)
+                .map(|_| {
+                    let n = 1 + r.below(3) as usize;
+                    push_ops(&mut r, n, &mixed)
+                })
+                .collect();
+            ("td_stall_2p", cap3, alt_mode, producers, Consumer::StallThenDrain(r.below(3) as u32))
+        }
+        _ => {
+            let np = 1 + r.below(3) as usize;
+            let producers = (0..np)
+                .map(|_| {
+                    let n = r.below(5) as usize;
+                    push_ops(&mut r, n, &mixed)
+                })
+                .collect();
+            if r.below(4) == 0 {
+                controller.push(Op::Stop);
+            }
+            let k = r.below(3) as u32;
+            let consumer = match r.below(3) {
+                0 => Consumer::AbandonAfter(k),
+                1 => Consumer::StopThenAbandon(k),
+                _ => Consumer::StallThenDrain(k),
+            };
+            ("td_random", r.pick(&[1usize, 2, 3, 4, 5, 8]), if r.below(2) == 0 { SourceMode::SharedArc } else { SourceMode::Cloned }, producers, consumer)
+        }
+    };
+    Workload { id, family, capacity, mode, producers, controller, consumer }
 }
